@@ -17,7 +17,7 @@ func Deps(out io.Writer, state *core.BuildState, labels []core.BuildLabel, hidde
 		fmt.Fprintf(out, "  edge [fontname=\"Helvetica,Arial,sans-serif\"]\n")
 		fmt.Fprintf(out, "  rankdir=\"LR\"\n")
 	}
-	done := map[core.BuildLabel]bool{}
+	done := map[core.BuildLabel]int{}
 	for _, label := range labels {
 		deps(out, state, state.Graph.TargetOrDie(label), done, targetLevel, 0, hidden, formatdot)
 	}
@@ -27,20 +27,25 @@ func Deps(out io.Writer, state *core.BuildState, labels []core.BuildLabel, hidde
 }
 
 // deps looks at all the deps of the given target & recurses into them, printing as appropriate.
-func deps(out io.Writer, state *core.BuildState, target *core.BuildTarget, done map[core.BuildLabel]bool, targetLevel, currentLevel int, hidden, formatdot bool) {
+// done records the shallowest level each target has been expanded at; with a level limit a target first reached
+// through a longer path must be expanded again when it is reached through a shorter one.
+func deps(out io.Writer, state *core.BuildState, target *core.BuildTarget, done map[core.BuildLabel]int, targetLevel, currentLevel int, hidden, formatdot bool) {
 	if currentLevel == targetLevel {
 		return
 	}
 	for _, l := range target.DeclaredDependencies() {
 		dep := state.Graph.TargetOrDie(l)
 		for _, l := range dep.ProvideFor(target) {
-			if !state.ShouldInclude(dep) || done[l] {
-				continue // target is filtered out
+			level, seen := done[l]
+			if !state.ShouldInclude(dep) || (seen && (targetLevel < 0 || level <= currentLevel)) {
+				continue // target is filtered out, or already expanded from at least as shallow
 			}
-			done[l] = true
+			done[l] = currentLevel
 			if dep := state.Graph.TargetOrDie(l); hidden || !dep.HasParent() {
 				// dep is to be printed; either we're printing hidden deps or it has no parent (i.e. is not hidden)
-				if formatdot {
+				if seen {
+					// already printed, we're only here to explore further below it
+				} else if formatdot {
 					printTargetDot(out, dep, target)
 				} else {
 					printTarget(out, dep, currentLevel)
